@@ -11,12 +11,14 @@ import json, collections
 from fractions import Fraction
 from . import common, lib_scheme as S, lib_molgen as G
 
-PROPS = ['PGA.Props.C02']
-GEN = []
+PROPS = ['PGA.Props.C02', 'PGA.Props.C02Full']
+GEN = ['Chars', 'MolQuery']
 OBLIGATIONS = ['PGA.Scheme.' + t for t in [
     'C02_assignCentres_ok_iff', 'C02_assignCentres_names', 'C02_assignCentres_error_iff',
     'C02_countGroups_declared', 'C02_distinctSets_card', 'C02_countDescs_declared',
-    'C02_remap_linear', 'C02_remap_order_independent', 'C02_getDescriptors_error_iff', 'C02_getDescriptors_value']]
+    'C02_remap_linear', 'C02_remap_order_independent', 'C02_getDescriptors_error_iff', 'C02_getDescriptors_value']] + [
+    'PGA.C02.' + t for t in ['C02_load_wf', 'C02_driver_computes_decompose', 'C02_toInput_declares', 'C02_decompose_declared',
+                             'C02_decompose_error_iff']]
 RULE = ('cases = (scheme, molecule): the nine shipped schemes and synthetic schemes derived from them (patterns dropped or '
         'duplicated, random chain-free remap tables with fractional coefficients) x fixed pools + grown molecules '
         '(gas C/H/O/N chains, branches, rings 3-9, fused/spiro/bridged, alkenes, alkynes, allenes, carbonyls, alternating C6 rings, '
